@@ -278,8 +278,9 @@ class Extractor:
                 if it.kind == 'struct' and 'Default' in kept and it.name in getattr(self, 'derived_default', set()):
                     kept = [d for d in kept if d != 'Default']
                     ctx.setdefault('derive_default', set()).add(it.name)
-                if it.name in self.cs.policy.derive_spec:
-                    moved = [d for d in kept if d in ('Clone', 'PartialEq')]
+                dspec = {x.split(':')[0]: (x.split(':')[1].split('+') if ':' in x else ['Clone', 'PartialEq']) for x in self.cs.policy.derive_spec}
+                if it.name in dspec:
+                    moved = [d for d in kept if d in dspec[it.name]]
                     kept = [d for d in kept if d not in moved]
                     ctx.setdefault('derive_spec', {})[it.name] = moved
                 if dropped:
@@ -393,6 +394,8 @@ class Extractor:
                     conj.append('v.%s is None' % fname)
                 elif ty in self.derived_default:
                     conj.append('is_default_%s(v.%s)' % (ty, fname))
+                elif ('fn is_manual_default_%s(' % ty) in self.spec_text():
+                    conj.append('is_manual_default_%s(v.%s)' % (ty, fname))
             self.out.add('pub open spec fn is_default_%s(v: %s) -> bool { %s }\n' % (it.name, it.name, ' && '.join(conj) if conj else 'true'), ('gen', 'R4b'))
             self.out.add('impl Default for %s { #[verifier::external_body] fn default() -> (r: Self) ensures is_default_%s(r) { unimplemented!() } }\n' % (it.name, it.name), ('gen', 'R4b'))
             self.log_rule('R4b', relfile, it.line, 'derive(Default) of %s replaced by its structural specification' % it.name)
@@ -603,6 +606,11 @@ class Extractor:
             else:
                 self.drop(ctx, m, 'unrecognised impl item')
         self.out.add('}\n', ('gen', 'impl-end'))
+
+    def spec_text(self) -> str:
+        if not hasattr(self, '_spec_text'):
+            self._spec_text = ''.join(open(os.path.join(self.spec_dir, f)).read() for f in sorted(os.listdir(self.spec_dir)) if f.endswith('.rs'))
+        return self._spec_text
 
     def strip_paths_text(self, s: str) -> str:
         def repl(m):
